@@ -212,6 +212,28 @@ Fixpoint crun (maxttl : Z) (s : cstate) (es : list cev) : option cstate :=
 (* what a Get issued in state [s] returns *)
 Definition cget (s : cstate) (k : Z) : option Z := get_at (cm s) (cnow s) k.
 
+(* what the client that issued event [e] in state [s] gets back (cleanup halves return nothing
+   a client observes) *)
+Definition cev_res (s : cstate) (e : cev) : list res :=
+  match e with
+  | CSet _ _ ttl => [if ttl <=? 0 then RPanic else RUnit]
+  | CGet k => [RGet (cget s k)]
+  | CDelete _ | CReset | CAdvance _ => [RUnit]
+  | CCollect | CDeleteKeys _ => []
+  end.
+
+Fixpoint ctrace (maxttl : Z) (s : cstate) (es : list cev) : option (cstate * list res) :=
+  match es with
+  | [] => Some (s, [])
+  | e :: t => match cstep maxttl s e with
+              | Some s' => match ctrace maxttl s' t with
+                           | Some (s2, rs) => Some (s2, cev_res s e ++ rs)
+                           | None => None
+                           end
+              | None => None
+              end
+  end.
+
 (* ------------------------------------------------------------------------------------- *)
 (* 3. Background cleaner and Stop                                                          *)
 
@@ -291,3 +313,40 @@ Fixpoint lrun (s : life) (es : list lev) : option life :=
   | [] => Some s
   | e :: t => match lstep s e with Some s' => lrun s' t | None => None end
   end.
+
+(* work of the cleaner goroutine: a tick taken, a cleanup pass finished *)
+Definition cleaner_work (e : lev) : bool :=
+  match e with LTick | LCleanupDone => true | _ => false end.
+
+Definition is_return (e : lev) : bool :=
+  match e with LStopReturn _ => true | _ => false end.
+
+Definition cleaner_exited (s : life) : bool :=
+  match lcleaner s with PExited => true | _ => false end.
+
+(* What an observer of a schedule records (the observation of the harness's "stops" cases): one
+   pair per Stop call that returns = (it returned, the cleaner goroutine had exited at that
+   moment), and whether the cleaner did any work after some Stop call had returned
+   ([seen] = some call has returned already). *)
+Fixpoint lcollect (s : life) (seen : bool) (es : list lev) : option (list (bool * bool) * bool) :=
+  match es with
+  | [] => Some ([], false)
+  | e :: t =>
+      match lstep s e with
+      | None => None
+      | Some s' =>
+          match lcollect s' (seen || is_return e) t with
+          | None => None
+          | Some (calls, late) =>
+              Some ((if is_return e then [(true, cleaner_exited s')] else []) ++ calls,
+                    (seen && cleaner_work e) || late)
+          end
+      end
+  end.
+
+(* The schedule of a "stops" case with n overlapping callers: a tick puts the cleaner inside a
+   cleanup pass; n Stop calls arrive and do their CompareAndSwap; the winner closes stopCh; the
+   pass ends, the cleaner sees stopCh and exits; every call returns. *)
+Definition stops_schedule (n : nat) : list lev :=
+  [LTick] ++ repeat LStopCall n ++ map LStopCas (seq 0 n) ++ [LStopClose 0; LCleanupDone; LSeeStop]
+  ++ map LStopReturn (seq 0 n).
